@@ -386,6 +386,11 @@ package tars
 //@   site Map).Delete#0 ghost e.gunlisted = true
 //@   ensures [C15] result1 ==> e.gunlisted
 //@   site Intn#0 assert [C15] $0 == e.rand && $1 == len(e.activeEpf) && $1 > 0
+// C14 (a call made with a hash code in its context is routed by the hash rules): which selector is asked depends on
+// the hash request of the message alone - every hash code, 0 included, goes to the selector of its hash type
+//@   site ConsistentHash).Select#0 assert [C14] msg.isHash && msg.hashType == ConsistentHash && $0 == e.activeEpConHash
+//@   site ModHash).Select#0 assert [C14] msg.isHash && msg.hashType == ModHash && $0 == e.activeEpModHash
+//@   site RoundRobin).Select#0 assert [C14] !msg.isHash || (msg.hashType != ConsistentHash && msg.hashType != ModHash)
 //@   sites Intn = 1
 //
 // ------------------------------------------------------------------ taking endpoints out of rotation (property C15)
@@ -435,6 +440,32 @@ package tars
 // Registration order is kept: a registration appends at the end of the list and leaves the earlier entries where
 // they are (the chain builders then wrap from the last entry to the first, so the first registered is outermost;
 // that wrapping itself - closures applied to closures - is not specified).
+//
+// The chain builders wrap from the last registered middleware to the first, so that the first registered ends up
+// outermost (registration order = calling order): the index starts at the last entry, stays inside the list, goes
+// down, and the middleware applied in a round is the entry under that index. (What a middleware does with the
+// filter it wraps is user code and not specified.)
+//@ func (*filters).getMiddlewareServerFilter
+//@   requires f != nil
+//@   noframe
+//@   allocates
+//@   let n0 = len(f.sfms)
+//@   loop 0 invariant [C01] 0 - 1 <= i && i < n0 && atentry(0, i) == n0 - 1
+//@   loop 0 decreases i + 1
+//@   loop 0 modifies everything
+//@   site dynamic#0 assert [C01] 0 <= i && i < n0 && $callee == f.sfms[i]
+//@   sites dynamic = 1
+//
+//@ func (*filters).getMiddlewareClientFilter
+//@   requires f != nil
+//@   noframe
+//@   allocates
+//@   let n0 = len(f.cfms)
+//@   loop 0 invariant [C01] 0 - 1 <= i && i < n0 && atentry(0, i) == n0 - 1
+//@   loop 0 decreases i + 1
+//@   loop 0 modifies everything
+//@   site dynamic#0 assert [C01] 0 <= i && i < n0 && $callee == f.cfms[i]
+//@   sites dynamic = 1
 //
 //@ func (*filters).UseClientFilterMiddleware
 //@   requires f != nil && (cap(f.cfms) == 0 || allocated(f.cfms))
